@@ -292,7 +292,15 @@ def run_case(case):
                 f.write(b"inner file")
             os.mkdir(os.path.join(decoy, "subdir"))
         d2 = dict(dims)
-        sess = gen.make_session(case["impl"], d2, case["seed"])
+        mt = 7 if rng.random() < 0.6 else 0
+        skw = {}
+        if mt == 0:
+            # "now" is resolved per file: on a slow link (0.3 virtual seconds per transport call) the files of one push are many seconds apart
+            skw["call_cost"] = 0.3
+            d2["frag"] = "whole"
+            d2["empty_rate"] = 0.0
+            stats["dir_pushes_with_current_time"] = 1
+        sess = gen.make_session(case["impl"], d2, case["seed"], **skw)
         cwd = os.getcwd()
         try:
             os.chdir(decoy)
@@ -300,7 +308,7 @@ def run_case(case):
             dpath = rng.choice(["/sdcard/d", "/data/local/tmp/x y", "/d"])
             cb_calls = []
             cb = scen.make_callback(case["impl"], "ok", cb_calls) if rng.random() < 0.4 else None
-            out = sess.call("push", src if rng.random() < 0.7 else src + "/", dpath, mtime=7, progress_callback=cb)
+            out = sess.call("push", src if rng.random() < 0.7 else src + "/", dpath, mtime=mt, progress_callback=cb)
             t1 = sess.clock.now()
         finally:
             os.chdir(cwd)
@@ -321,8 +329,14 @@ def run_case(case):
                     [(a, len(b)) for a, b in got], [(a, len(b)) for a, b in want], " (content of the working directory's decoys was sent)" if decoyed else "")))
             for p in pushed:
                 stats["data_records"] += len(p["chunks"])
-                if p["status"] != "OKAY" or p["mtime"] != 7 or p["mode"] != int(0o100770):
+                if p["status"] != "OKAY" or (mt and p["mtime"] != mt) or p["mode"] != int(0o100770):
                     viol.append(mk("C07", "send-spec", "file %r: status %r mtime %r mode %r" % (p["path"], p["status"], p["mtime"], p["mode"])))
+                if not mt:
+                    lo = int(t0) if p.get("prev_done_time") is None else max(int(t0), int(p["prev_done_time"]))
+                    hi = int(p["done_time"]) if p.get("done_time") is not None else int(t1)
+                    if p["mtime"] is None or not (lo <= p["mtime"] <= hi):
+                        viol.append(mk("C07", "mtime", "file %r of a directory pushed with mtime=0: DONE carries %r, the current time was %d..%d (the previous file was finished at %r)" % (
+                            p["path"], p["mtime"], lo, hi, p.get("prev_done_time"))))
             if cb is not None:
                 tot = {}
                 for (p, n, t) in cb_calls:
